@@ -162,12 +162,11 @@ class MathRandom(JMCFunction):
                 f"scoreboard players add {bound} {var} 1"
             ]
 
-        run.extend([
-            self.datapack.call_func(self.name, "main"),
-            f"scoreboard players operation {self.var} = {result} {var}",
-        ])
+        run.append(self.datapack.call_func(self.name, "main"))
 
         if isinstance(start.value, int):
+            run.append(
+                f"scoreboard players operation {self.var} = {result} {var}")
             if start.value < 0:
                 run.append(
                     f"scoreboard players remove {self.var} {abs(start.value)}")
@@ -175,8 +174,11 @@ class MathRandom(JMCFunction):
                 run.append(
                     f"scoreboard players add {self.var} {start.value}")
         else:
-            run.append(
-                f"scoreboard players operation {self.var} += {start.value[1]} {start.value[0]}")
+            # min is added before the assignment: the target may be the min variable itself
+            run.extend([
+                f"scoreboard players operation {result} {var} += {start.value[1]} {start.value[0]}",
+                f"scoreboard players operation {self.var} = {result} {var}",
+            ])
 
         if self.is_execute:
             count = self.datapack.get_count(self.name)
